@@ -406,18 +406,37 @@ func c03R6(c *Ctx, rule string) {
 	tbc := extractOf(w, 0)
 	pc := p.Func("internal/multiplex", "Stream.passiveClose")
 	ok := false
-	if tbc != nil && pc != nil {
-		for _, call := range callsIn(rf, fnName(pc)) {
+	// the passive close: Stream.passiveClose(), or what it stands for, session.closeStream(s, false)
+	closeStreamF := p.Func("internal/multiplex", "Session.closeStream")
+	isPassive := func(i ssa.Instruction) bool {
+		if pc != nil && callsFn(i, pc) {
+			return true
+		}
+		if closeStreamF != nil && callsFn(i, closeStreamF) {
+			args := callArgs(callCommon(i))
+			if len(args) == 3 {
+				if b, isB := boolConst(args[2]); isB && !b {
+					return true
+				}
+			}
+		}
+		return false
+	}
+	if tbc != nil && (pc != nil || closeStreamF != nil) {
+		allInstrs(rf, func(call ssa.Instruction) {
+			if !isPassive(call) {
+				return
+			}
 			for _, at := range AtomsAt(call) {
 				if at.Kind == "bool" && at.Pol && at.X == tbc {
 					ok = true
 				}
 			}
-		}
+		})
 		// and no path with toBeClosed==true that skips it
 		if ok {
 			miss := edgeSearch(rf, w, func(at Atom) bool { return at.Kind == "bool" && !at.Pol && at.X == tbc },
-				func(i ssa.Instruction) bool { return callsFn(i, pc) }, func(i ssa.Instruction) bool { _, r := i.(*ssa.Return); return r })
+				isPassive, func(i ssa.Instruction) bool { _, r := i.(*ssa.Return); return r })
 			// miss explores only the toBeClosed==true side (false edge cut); it must not reach a return without passiveClose
 			// but paths where the If is not on tbc at all would also count: acceptable (conservative)
 			if miss != nil {
